@@ -27,6 +27,8 @@ RULE = (
     "Non-trivial = all-defaults configuration (every lazily resolved None "
     "default runs), or a model argument that was already fitted, or >= 2 "
     "consecutive queries.")
+RULE += (" Further generated dimensions (added while closing seeded "
+         "changes): " + 'zero / negative utility_weight entries; alternative (array- and dict-valued) constructor configurations; pre-configured discriminator; list / int-typed argument containers' + ".")
 ASSUMPTIONS = [
     "random generators held by a caller's model are compared by identity, "
     "not by state (with fit_clf=False the strategy legitimately calls the "
